@@ -115,17 +115,7 @@ func Run(c *vh.Ctx) {
 			c.Note("bad replay: %v", err)
 			return
 		}
-		switch cs.Kind {
-		case "triple-ref": // {"kind":"triple-ref","shape":..,"route":..,"mut":..,"side":..}
-			if t := tripleByNames(cs.Shape, cs.Route, cs.Mut, cs.Side); t != nil {
-				cs = *t
-			}
-		case "kv-ref":
-			if t := kvByNames(cs.Shape, cs.Route, cs.Mut, cs.Side); t != nil {
-				cs = *t
-			}
-		}
-		runAny(&cs)
+		runAny(resolve(&cs))
 		return
 	}
 
@@ -152,7 +142,7 @@ func Run(c *vh.Ctx) {
 			var cs Case
 			if json.Unmarshal(b, &cs) == nil {
 				c.Hit("corpus")
-				runAny(&cs)
+				runAny(resolve(&cs))
 			}
 		}
 	}
@@ -278,4 +268,19 @@ func kvByNames(sh, ro, mu, side string) *Case {
 		}
 	}
 	return nil
+}
+
+// resolve turns a reference to a catalogue triple into the case itself
+func resolve(cs *Case) *Case {
+	switch cs.Kind {
+	case "triple-ref": // {"kind":"triple-ref","shape":..,"route":..,"mut":..,"side":..}
+		if t := tripleByNames(cs.Shape, cs.Route, cs.Mut, cs.Side); t != nil {
+			return t
+		}
+	case "kv-ref":
+		if t := kvByNames(cs.Shape, cs.Route, cs.Mut, cs.Side); t != nil {
+			return t
+		}
+	}
+	return cs
 }
